@@ -191,7 +191,44 @@ OuterJump == {CaseOf("C01/outerjump/" \o fo \o "-" \o fi \o "/" \o j \o "/" \o p
                                   [] pl = "between" -> JInner(fi, "i") \o <<JStmt(j)>> \o JInner(fi, "k") \o <<Lbl("tail")>>
                                   [] pl = "afterboth" -> JInner(fi, "i") \o JInner("for3", "k") \o <<JStmt(j), Lbl("tail")>>) \o <<Lbl("end")>>)
               : fo \in {"for3", "forcond", "range"}, fi \in {"for3", "forcond", "range"}, j \in {"continue", "break"}, pl \in JumpPlaces}
-All == OuterJump \cup TupleCases \cup NotCmp \cup NotOther \cup Arith1 \cup Arith2 \cup ArithVar \cup Arith3 \cup Logic2 \cup LogicNot \cup CmpInt \cup CmpStr \cup CmpBool \cup Mixed \cup StrConcat
+\* the same expression text evaluated before a loop and again inside it while its operands change: a value is never remembered across statements
+REs == <<<<"mul", Bin("*", Var("a"), IntL("2"))>>, <<"add", Bin("+", Var("a"), Var("b"))>>, <<"cmp", CmpE("<", Var("a"), IntL("20"))>>, <<"eq", CmpE("==", Var("a"), Var("b"))>>,
+         <<"not", Not(Var("p"))>>, <<"and", Lgc("&&", Var("p"), CmpE(">", Var("a"), IntL("0")))>>, <<"cat", Bin("+", Var("s"), StrL("!"))>>, <<"itoa", Itoa(Var("a"))>>, <<"grp", Grp(Bin("-", Var("a"), Var("b")))>>>>
+RLoops == {"forcond", "forinf", "for3bare", "for3"}
+Upd == <<Asg1("a", Bin("+", Var("a"), Var("a"))), Asg1("p", Not(Var("p"))), Compound("s", "+", Itoa(Var("a"))), Inc("b")>>
+ReLoop(f, e, where) ==
+  LET show == <<PrintS(<<e>>)>>
+      body == (IF where = "top" THEN show ELSE <<>>) \o Upd \o (IF where = "bottom" THEN show ELSE <<>>) \o <<Inc("n")>>
+      cnd == CmpE("<", Var("n"), IntL("3"))
+  IN CASE f = "forcond" -> <<ForCond(cnd, body)>> [] f = "forinf" -> <<ForInf(<<If1(Not(Grp(cnd)), <<BreakS>>)>> \o body)>>
+       [] f = "for3bare" -> <<For3(NoneN, cnd, NoneN, body)>> [] f = "for3" -> <<For3(Def1("k", IntL("0")), CmpE("<", Var("k"), IntL("3")), Inc("k"), body)>>
+Reeval == {CaseOf("C01/reeval/" \o REs[i][1] \o "/" \o f \o "/" \o w,
+                  <<Def(<<"a", "b", "p", "s", "n">>, <<IntL("3"), IntL("3"), BoolL(TRUE), StrL("x"), IntL("0")>>), PrintS(<<REs[i][2]>>)>> \o ReLoop(f, REs[i][2], w) \o <<PrintS(<<REs[i][2]>>), Lbl("end")>>)
+           : i \in 1..Len(REs), f \in RLoops, w \in {"top", "bottom"}}
+          \cup {CaseOf("C01/reeval/cond/" \o f, <<Def1("a", IntL("1")), Print1(CmpE("<", Var("a"), IntL("5")))>> \o
+                        (IF f = "forcond" THEN <<ForCond(CmpE("<", Var("a"), IntL("5")), <<Print1(Var("a")), Asg1("a", Bin("+", Var("a"), Var("a")))>>)>>
+                         ELSE <<For3(NoneN, CmpE("<", Var("a"), IntL("5")), NoneN, <<Print1(Var("a")), Asg1("a", Bin("+", Var("a"), Var("a")))>>)>>) \o <<Print1(CmpE("<", Var("a"), IntL("5")))>>)
+                : f \in {"forcond", "for3bare"}}
+          \cup {CaseOf("C01/reeval/ifchain", <<Def1("a", IntL("1")), Print1(Bin("*", Var("a"), IntL("2"))), If(<<Branch(CmpE(">", Bin("*", Var("a"), IntL("2")), IntL("5")), <<Lbl("big")>>)>>, <<Inc("a"), Print1(Bin("*", Var("a"), IntL("2")))>>),
+                                                Print1(Bin("*", Var("a"), IntL("2"))), Switch(Bin("*", Var("a"), IntL("2")), <<CaseB(IntL("4"), <<Inc("a"), Print1(Bin("*", Var("a"), IntL("2")))>>)>>, <<Lbl("d")>>, TRUE), Print1(Bin("*", Var("a"), IntL("2")))>>)}
+\* continue / break of a loop from every kind of branch body: the jump is found wherever it sits (then, else-if, else, case, default, nested)
+JLoop(f, body) == CASE f = "for3" -> <<For3(Def1("i", IntL("0")), CmpE("<", Var("i"), IntL("4")), Inc("i"), body)>>
+                    [] f = "range" -> <<RangeS("i", "", StrL("abcd"), body)>>
+                    [] f = "for3call" -> <<For3(Def1("i", IntL("0")), CmpE("<", Var("i"), IntL("4")), Asg1("i", Bin("+", Var("i"), IntL("1"))), body)>>
+JSites == {"then", "elif", "else", "case", "default", "elseNested", "caseInIf", "elseOfElif"}
+JAt(site, j) == LET J == IF j = "continue" THEN ContinueS ELSE BreakS
+                    is2 == CmpE("==", Var("i"), IntL("2")) IN
+  CASE site = "then" -> <<If1(is2, <<J>>)>>
+    [] site = "elif" -> <<If(<<Branch(CmpE("==", Var("i"), IntL("9")), <<Lbl("never")>>), Branch(is2, <<J>>)>>, <<>>)>>
+    [] site = "else" -> <<IfElse(CmpE("!=", Var("i"), IntL("2")), <<Lbl("keep")>>, <<J>>)>>
+    [] site = "case" -> <<Switch(Var("i"), <<CaseB(IntL("2"), <<J>>)>>, <<Lbl("other")>>, TRUE)>>
+    [] site = "default" -> <<Switch(Var("i"), <<CaseB(IntL("0"), <<Lbl("zero")>>), CaseB(IntL("1"), <<Lbl("one")>>), CaseB(IntL("3"), <<Lbl("three")>>)>>, <<J>>, TRUE)>>
+    [] site = "elseNested" -> <<IfElse(CmpE("<", Var("i"), IntL("2")), <<Lbl("low")>>, <<IfElse(CmpE(">", Var("i"), IntL("2")), <<Lbl("high")>>, <<J>>)>>)>>
+    [] site = "caseInIf" -> <<If1(CmpE(">", Var("i"), IntL("0")), <<Switch(NoneN, <<CaseB(is2, <<J>>)>>, <<>>, FALSE)>>)>>
+    [] site = "elseOfElif" -> <<If(<<Branch(CmpE("==", Var("i"), IntL("0")), <<Lbl("zero")>>), Branch(CmpE("==", Var("i"), IntL("1")), <<Lbl("one")>>)>>, <<If1(is2, <<J>>), Lbl("ge2")>>)>>
+JumpSites == {CaseOf("C01/jumpsite/" \o f \o "/" \o j \o "/" \o st, JLoop(f, JAt(st, j) \o <<PrintS(<<StrL("body"), Var("i")>>)>>) \o <<Lbl("end")>>)
+              : f \in {"for3", "range", "for3call"}, j \in {"continue", "break"}, st \in JSites}
+All == Reeval \cup JumpSites \cup OuterJump \cup TupleCases \cup NotCmp \cup NotOther \cup Arith1 \cup Arith2 \cup ArithVar \cup Arith3 \cup Logic2 \cup LogicNot \cup CmpInt \cup CmpStr \cup CmpBool \cup Mixed \cup StrConcat
        \cup Nest1 \cup Nest2 \cup Seq2 \cup Nest3 \cup DefCases \cup CompoundCases \cup IncDecCases \cup PanicAt \cup ItoaCases \cup PrintCases
 ASSUME ndJsonSerialize("fam.ndjson", SetToSeq(All))
 =============================================================================
